@@ -239,6 +239,28 @@ def check(prop, tier, runs=None, workers=None, wall=None):
         if not v2:
             small, rec2, v2 = rec["plan"], rec, [v]
         kf = findings.match(prop, v2[0], rec2["plan"], rec2)
+        if kf:
+            # the listed finding explains this member of the group; the other members must be
+            # explained by it too, or one of them is reported as the new violation it is
+            for r3, v3 in items[1:13]:
+                try:
+                    rec3 = shrink.run_plan(mod, r3["plan"])
+                except runner.HarnessError:
+                    continue
+                v3s = [x for x in rec3["violations"] if shrink.sig_of(x) == shrink.sig_of(v)]
+                if v3s and not findings.match(prop, v3s[0], rec3["plan"], rec3):
+                    small3, used3 = shrink.shrink(mod, rec3["plan"], shrink.sig_of(v), budget=min(shrink_left[0], 100))
+                    shrink_left[0] -= used3
+                    rec4 = shrink.run_plan(mod, small3)
+                    v4 = [x for x in rec4["violations"] if shrink.sig_of(x) == shrink.sig_of(v)]
+                    if v4 and not findings.match(prop, v4[0], rec4["plan"], rec4):
+                        rec2, v2, kf_other = rec4, v4, None
+                    else:
+                        rec2, v2 = rec3, v3s
+                    known.append({"finding": kf["id"], "what": kf["what"], "occurrences": "some of %d" % len(items)})
+                    say("KNOWN-FINDING: property=%s %s" % (prop, kf["what"]))
+                    kf = None
+                    break
         path = write_replay(prop, engine, rec2["plan"], v2[0], rec2.get("text"), True, {"shrink_executions": used, "occurrences_in_batch": len(items)})
         if kf:
             known.append({"finding": kf["id"], "what": kf["what"], "occurrences": len(items), "replay": path})
